@@ -8,7 +8,7 @@ use crate::sched::SchedSpec;
 use locustdb_simrt::core::Rng;
 use std::collections::BTreeMap;
 
-pub const CLAIMED: &[&str] = &["C01", "C07", "C08", "C13", "C15", "C18"];
+pub const CLAIMED: &[&str] = &["C01", "C07", "C08", "C09", "C10", "C11", "C12", "C13", "C14", "C15", "C18"];
 
 pub fn mix_seed(base: u64, prop: &str, i: u64) -> u64 {
     let mut h = 0xcbf29ce484222325u64 ^ base.wrapping_mul(0x9E3779B97F4A7C15);
@@ -274,6 +274,55 @@ fn gen_plan_inner(prop: &str, seed: u64, rng: &mut Rng) -> Plan {
             p.ops.push(Op::CheckAll);
             p
         }
+        "C09" => {
+            let mut p = base_plan(prop, "crash", seed, &mut rng);
+            p.opts.on_disk = true;
+            p.opts.io_threads = *rng.pick(&[1usize, 1, 4]);
+            p.opts.wal_threads = *rng.pick(&[1usize, 2]);
+            p.opts.partition_combine_factor = *rng.pick(&[0u64, 1, 4, 999]);
+            p.opts.max_partition_size_bytes = *rng.pick(&[1u64, 200, 8 * 1024 * 1024]);
+            p.opts.threads = *rng.pick(&[1usize, 2, 2]);
+            if rng.below(5) == 0 {
+                p.opts.max_wal_size_bytes = *rng.pick(&[1u64, 600]);
+            }
+            p.check_each = false;
+            p.extras.push(Extra::CrashEnum);
+            let nt = 1 + rng.below(2) as usize;
+            let mut tables = gen_tables(&mut rng, nt, &tnames(3), &plain_names(), 3);
+            for t in tables.iter_mut() {
+                t.with_id = true;
+            }
+            let mut id = 1;
+            let nops = 2 + rng.below(6) as usize;
+            p.ops = gen_history(&mut rng, &mut tables, nops, (5, 4, 0, 1, 0), 8, false, &mut id);
+            p.knobs.insert("max_images".into(), 160);
+            p.knobs.insert("nested_per_image".into(), 2);
+            p
+        }
+        "C14" => {
+            let mut p = base_plan(prop, "rot", seed, &mut rng);
+            p.opts.on_disk = true;
+            p.opts.partition_combine_factor = *rng.pick(&[0u64, 4, 999]);
+            p.opts.max_partition_size_bytes = *rng.pick(&[1u64, 150, 8 * 1024 * 1024]);
+            p.opts.threads = 2;
+            p.check_each = false;
+            p.extras.push(Extra::Rot);
+            set_packed_strings_ok(p.opts.partition_combine_factor == 999);
+            let nt = 1 + rng.below(2) as usize;
+            let mut tables = gen_tables(&mut rng, nt, &tnames(3), &plain_names(), 4);
+            let mut id = 1;
+            let nops = 2 + rng.below(4) as usize;
+            p.ops = gen_history(&mut rng, &mut tables, nops, (5, 4, 0, 1, 0), 12, true, &mut id);
+            // at rest there is at least one partition file, the catalogue and one log segment
+            p.ops.push(Op::Flush);
+            p.ops.push(Op::Ingest(gen_request(&mut rng, id, &mut tables, 6, true, false)));
+            p.knobs.insert("rot_files".into(), 1);
+            p.knobs.insert("rot_max_damage".into(), 500);
+            p
+        }
+        "C10" => gen_c10(seed, &mut rng),
+        "C11" => gen_c11(seed, &mut rng, false),
+        "C12" => gen_c11(seed, &mut rng, true),
         _ => panic!("no generator for property {prop}"),
     }
 }
@@ -309,6 +358,210 @@ pub fn run_plan(plan: &Plan) -> RunResult {
     crate::env::register_name_words(plan_names(plan));
     match plan.profile.as_str() {
         "history" => crate::exec::run_history(plan),
+        "crash" => crate::exec_crash::run_crash(plan),
+        "rot" => crate::exec_crash::run_rot(plan),
         other => panic!("unknown profile {other}"),
     }
+}
+
+
+pub const SYNC_LABELS: &[&str] = &[
+    "flush:start",
+    "flush:after_freeze",
+    "flush:after_batch",
+    "flush:after_batching",
+    "flush:after_persist_partitions",
+    "compact:start",
+    "compact:after_build_columns",
+    "compact:after_table_compact",
+    "compact:after_prepare_compact",
+    "flush:after_compaction",
+    "flush:after_persist_metastore",
+    "flush:after_delete_partitions",
+    "flush:after_delete_wal",
+    "ingest:after_wal_spawn",
+    "ingest:before_table",
+    "ingest:after_tables",
+    "wal:after_id_assigned",
+    "load:before_read",
+    "load:after_read",
+    "query:after_get_cols",
+];
+
+/// a batch for the prefix oracle: ids = request * 1000 + index, plus a payload column
+fn prefix_request(rng: &mut Rng, id: u32, tables: &[&str]) -> Request {
+    let mut tbs = Vec::new();
+    for t in tables {
+        let rows = 1 + rng.below(6) as usize;
+        let mut cols = vec![ColBatch { name: "id".into(), cells: (0..rows).map(|i| Cell::I(id as i64 * 1000 + i as i64)).collect(), repr: Repr::Typed }];
+        match rng.below(3) {
+            0 => cols.push(ColBatch { name: "v".into(), cells: (0..rows).map(|_| Cell::I(rng.range(-50, 50))).collect(), repr: Repr::Typed }),
+            1 => cols.push(ColBatch { name: "s".into(), cells: (0..rows).map(|_| Cell::S(format!("k{}", rng.below(3)))).collect(), repr: Repr::Typed }),
+            _ => {}
+        }
+        tbs.push(TableBatch { table: t.to_string(), rows, cols });
+    }
+    Request { id, path: if rng.below(3) == 0 { IngestPath::NativeWire } else { IngestPath::Native }, tables: tbs }
+}
+
+fn prefix_query(rng: &mut Rng, table: &str) -> String {
+    match rng.below(6) {
+        0..=2 => format!("SELECT id FROM \"{table}\""),
+        3 => format!("SELECT COUNT(1), SUM(id) FROM \"{table}\""),
+        // an absent column plants placeholder handles in the partitions it touches
+        4 => format!("SELECT nosuchcol, id FROM \"{table}\""),
+        _ => format!("SELECT v, id FROM \"{table}\""),
+    }
+}
+
+fn placement(rng: &mut Rng) -> Option<(String, u64, u32)> {
+    if rng.below(2) == 0 {
+        None
+    } else {
+        Some((rng.pick(SYNC_LABELS).to_string(), 1 + rng.below(3), *rng.pick(&[20u32, 100, 400])))
+    }
+}
+
+fn gen_c10(seed: u64, rng: &mut Rng) -> Plan {
+    let mut p = base_plan("C10", "history", seed, rng);
+    p.opts.on_disk = true;
+    p.opts.threads = *rng.pick(&[1usize, 2, 3]);
+    p.opts.partition_combine_factor = *rng.pick(&[0u64, 1, 4, 999]);
+    p.opts.wal_threads = *rng.pick(&[1usize, 2]);
+    p.opts.io_threads = *rng.pick(&[1usize, 4]);
+    p.opts.max_partition_size_bytes = *rng.pick(&[1u64, 8 * 1024 * 1024, 8 * 1024 * 1024]);
+    if rng.below(4) == 0 {
+        p.opts.max_wal_size_bytes = *rng.pick(&[1u64, 300]);
+    }
+    p.check_each = false;
+    let tables = ["t0", "t1"];
+    let mut id: u32 = 1;
+    // sequential prologue: some history, old partitions possibly non-resident
+    for k in 0..(1 + rng.below(3)) {
+        // (both tables exist before the concurrent phase)
+        let nt = if k == 0 { 2 } else { 1 + rng.below(2) as usize };
+        p.ops.push(Op::Ingest(prefix_request(rng, id, &tables[..nt])));
+        id += 1;
+        if rng.below(2) == 0 {
+            p.ops.push(Op::Flush);
+        }
+    }
+    if rng.below(2) == 0 {
+        p.ops.push(Op::Restart);
+    }
+    p.ops.push(Op::CheckAll);
+    // concurrent phase
+    let mut clients = Vec::new();
+    let n_ing = 1 + rng.below(2);
+    for c in 0..n_ing {
+        let mut ops = Vec::new();
+        for _ in 0..(1 + rng.below(3)) {
+            let nt = 1 + rng.below(2) as usize;
+            let at = placement(rng);
+            ops.push(ClientOp { at, op: Op::Ingest(prefix_request(rng, id, &tables[..nt])) });
+            id += 1;
+        }
+        clients.push(ClientPlan { name: format!("ingest{c}"), ops });
+    }
+    let n_q = 1 + rng.below(2);
+    for c in 0..n_q {
+        let mut ops = Vec::new();
+        for _ in 0..(1 + rng.below(4)) {
+            let t = tables[rng.below(2) as usize];
+            ops.push(ClientOp { at: placement(rng), op: Op::RawQuery(prefix_query(rng, t)) });
+        }
+        clients.push(ClientPlan { name: format!("query{c}"), ops });
+    }
+    {
+        let mut ops = Vec::new();
+        for _ in 0..(1 + rng.below(3)) {
+            let op = if spicy() && rng.below(3) == 0 { Op::Evict } else { Op::Flush };
+            ops.push(ClientOp { at: if rng.below(3) == 0 { placement(rng) } else { None }, op });
+        }
+        clients.push(ClientPlan { name: "maint".into(), ops });
+    }
+    p.ops.push(Op::Concurrent(clients));
+    p.ops.push(Op::CheckAll);
+    p
+}
+
+/// C11 (requests of every kind, canaries) and C12 (arbitrary query strings)
+fn gen_c11(seed: u64, rng: &mut Rng, strings_only: bool) -> Plan {
+    let mut p = base_plan(if strings_only { "C12" } else { "C11" }, "history", seed, rng);
+    p.opts.on_disk = rng.below(4) != 0;
+    p.knobs.insert("failing_requests_expected".into(), 1);
+    p.opts.threads = *rng.pick(&[1usize, 1, 2, 3, 8]);
+    p.opts.partition_combine_factor = *rng.pick(&[1u64, 4, 999]);
+    p.check_each = false;
+    // a small multi-partition database
+    let mut id: u32 = 1;
+    let parts = 2 + rng.below(3);
+    for _ in 0..parts {
+        let rows = 2 + rng.below(6) as usize;
+        let mk = |rng: &mut Rng, id: u32| {
+            let cols = vec![
+                ColBatch { name: "id".into(), cells: (0..rows).map(|i| Cell::I(id as i64 * 1000 + i as i64)).collect(), repr: Repr::Typed },
+                ColBatch { name: "n".into(), cells: (0..rows).map(|_| if rng.below(5) == 0 { Cell::N } else { Cell::I(rng.range(-5, 300)) }).collect(), repr: Repr::Typed },
+                ColBatch { name: "f".into(), cells: (0..rows).map(|_| Cell::f(rng.range(-400, 400) as f64 / 4.0)).collect(), repr: Repr::Typed },
+                ColBatch { name: "s".into(), cells: (0..rows).map(|_| Cell::S(format!("k{}", rng.below(3)))).collect(), repr: Repr::Typed },
+            ];
+            TableBatch { table: "t0".into(), rows, cols }
+        };
+        let tb = mk(rng, id);
+        p.ops.push(Op::Ingest(Request { id, path: IngestPath::Native, tables: vec![tb] }));
+        id += 1;
+        if p.opts.on_disk || rng.below(2) == 0 {
+            p.ops.push(Op::Flush);
+        }
+    }
+    // the canary table: written once, never again
+    let canary_rows = 3 + rng.below(4) as usize;
+    p.ops.push(Op::Ingest(Request {
+        id,
+        path: IngestPath::Native,
+        tables: vec![TableBatch { table: "canary".into(), rows: canary_rows, cols: vec![ColBatch { name: "id".into(), cells: (0..canary_rows).map(|i| Cell::I(i as i64)).collect(), repr: Repr::Typed }] }],
+    }));
+    id += 1;
+    p.knobs.insert("canary_rows".into(), canary_rows as i64);
+    if p.opts.on_disk && rng.below(3) == 0 {
+        p.ops.push(Op::Restart);
+    }
+    let info = crate::sqlgen::TableInfo { name: "t0".into(), int_cols: vec!["id".into(), "n".into()], float_cols: vec!["f".into()], str_cols: vec!["s".into()] };
+    let nclients = 1 + rng.below(3) as usize;
+    let mut clients = Vec::new();
+    for c in 0..nclients {
+        let mut ops = Vec::new();
+        let nreq = if strings_only { 8 + rng.below(14) } else { 4 + rng.below(10) };
+        for _ in 0..nreq {
+            let op = if strings_only {
+                Op::RawQuery(crate::sqlgen::any_query(rng, &info))
+            } else {
+                match rng.below(12) {
+                    0..=3 => Op::RawQuery(crate::sqlgen::supported(rng, &info)),
+                    4..=6 => Op::RawQuery(crate::sqlgen::unsupported_or_failing(rng, &info)),
+                    7 => {
+                        let base = crate::sqlgen::supported(rng, &info);
+                        Op::RawQuery(crate::sqlgen::mutate(rng, &base))
+                    }
+                    8 => {
+                        let r = Request { id, path: IngestPath::Native, tables: vec![TableBatch { table: "t1".into(), rows: 2, cols: vec![ColBatch { name: "id".into(), cells: vec![Cell::I(id as i64 * 1000), Cell::I(id as i64 * 1000 + 1)], repr: Repr::Typed }] }] };
+                        id += 1;
+                        Op::Ingest(r)
+                    }
+                    9 => Op::Flush,
+                    10 => Op::Stats,
+                    _ => Op::MemTree,
+                }
+            };
+            ops.push(ClientOp { at: None, op });
+            // a canary after every request: the database still answers, and correctly
+            ops.push(ClientOp { at: None, op: Op::RawQuery("SELECT COUNT(1) FROM canary".into()) });
+        }
+        clients.push(ClientPlan { name: format!("client{c}"), ops });
+    }
+    p.ops.push(Op::Concurrent(clients));
+    // afterwards everything still works: flush thread answers, content intact
+    p.ops.push(Op::Flush);
+    p.ops.push(Op::CheckAll);
+    p
 }
